@@ -3,7 +3,7 @@
    child), lift / proj = broadcast / marginalise along an edge (only their adjointness is used), and beliefs
    bel r = N exp(phi r)/Z_r with phi r = theta r + sum_{children} lift (msg) - sum_{parents} msg: the form hps_belief of Model/Region.v
    computes (unit counting numbers).  objective nu = sum_r <theta_r, nu_r> + sum_r H(nu_r). *)
-From Coq Require Import List Arith Reals Lra.
+From Coq Require Import List Arith Reals Lra Lia.
 Import ListNotations.
 Require Import PGM.Base.Num PGM.Model.Factor PGM.Model.Region PGM.Proofs.GibbsP PGM.Proofs.CertP PGM.Proofs.RegionP PGM.Proofs.SelectP.
 Open Scope R_scope.
@@ -13,7 +13,7 @@ Open Scope R_scope.
    oracle's own feasibility test passes, what it returns is the optimum. *)
 Theorem C17_certificate n d theta E msg lift proj N :
   0 < N -> (forall r, (r < n)%nat -> (0 < d r)%nat) -> (forall e, In e E -> (fst e < n)%nat /\ (snd e < n)%nat) ->
-  (forall e m v, dotf (d (fst e)) (lift e m) v = dotf (d (snd e)) m (proj e v)) ->
+  (forall e, In e E -> forall m v, dotf (d (fst e)) (lift e m) v = dotf (d (snd e)) m (proj e v)) ->
   forall nu, consistent d E proj nu -> valid n d N nu -> consistent d E proj (bel d theta E msg lift N) ->
   objective n d theta N nu <= objective n d theta N (bel d theta E msg lift N).
 Proof. intros HN Hd HE HA nu. exact (certificate n d theta E msg lift proj N HN Hd HE HA nu). Qed.
@@ -27,7 +27,7 @@ Print Assumptions C17_region_identity.
 
 (* under consistency the message terms cancel edge by edge: the objective can be re-expressed through phi *)
 Theorem C17_messages_cancel n d theta E msg lift proj N : (forall e, In e E -> (fst e < n)%nat /\ (snd e < n)%nat) ->
-  (forall e m v, dotf (d (fst e)) (lift e m) v = dotf (d (snd e)) m (proj e v)) ->
+  (forall e, In e E -> forall m v, dotf (d (fst e)) (lift e m) v = dotf (d (snd e)) m (proj e v)) ->
   forall nu, consistent d E proj nu -> objective n d theta N nu = sumf n (fun r => dotf (d r) (phi theta E msg lift r) (nu r) + ent (d r) N (nu r)).
 Proof. intros HE HA nu. exact (objective_reparam n d theta E msg lift proj N HE HA nu). Qed.
 Print Assumptions C17_messages_cancel.
@@ -38,3 +38,21 @@ Proof. exact (normalised_sum total b). Qed.
 Print Assumptions C17_beliefs_normalised.
 (* PARTIAL: that the damped sweeps REACH consistency is observed with the code's own convergence test; that minimal (pruned) edges imply
    agreement of every ancestor/descendant pair is observed (all nested pairs are compared per run), not proved. *)
+
+(* non-vacuity: a two-region graph (a region with two cells above its one-cell sub-region, zero potentials and messages) meets all
+   hypotheses of the certificate, including consistency of the beliefs *)
+Example C17_hypotheses_satisfiable :
+  let d := fun r : nat => match r with O => 2%nat | _ => 1%nat end in
+  let E := [(0%nat, 1%nat)] in
+  let lift := fun (_ : nat * nat) (m : nat -> R) (_ : nat) => m 0%nat in
+  let proj := fun (_ : nat * nat) (v : nat -> R) (_ : nat) => v 0%nat + v 1%nat in
+  let z := fun (_ : nat) (_ : nat) => 0 in let zm := fun (_ : nat * nat) (_ : nat) => 0 in
+  (forall r, (r < 2)%nat -> (0 < d r)%nat) /\ (forall e, In e E -> (fst e < 2)%nat /\ (snd e < 2)%nat) /\
+  (forall e, In e E -> forall m v, dotf (d (fst e)) (lift e m) v = dotf (d (snd e)) m (proj e v)) /\
+  consistent d E proj (bel d z E zm lift 1).
+Proof. cbv zeta. split; [|split; [|split]].
+  - intros [|[|r]] H; simpl; lia.
+  - intros e [<-|[]]. simpl. lia.
+  - intros e [<-|[]] m v. unfold dotf. simpl. ring.
+  - intros e [<-|[]] i Hi. simpl in Hi. assert (i = 0%nat) by lia. subst i.
+    unfold bel, belief, Zr, phi. simpl. replace (0 + 0 + - 0) with 0 by ring. rewrite exp_0. field. Qed.
